@@ -45,9 +45,9 @@ def best_makespan(instance, flt, observers=()):
 
 class Check(PropertyCheck):
     ID = "C08"
-    LEAN_MODULE = "JobShopProofs.Properties.C08"
+    LEAN_MODULE = "JobShopProofs.EnvOptimum"
     THEOREMS = ["JS.C08_pruned_reaches", "JS.C08_pruned_reaches_concrete", "JS.C08_min_eq", "JS.nonDom_iff_filter",
-                "JS.asgOf_feasible"]
+                "JS.asgOf_feasible", "JS.C08_env_reaches", "JS.C08_env_reaches_done", "JS.C08_env_min_iff", "JS.C08_env_run_feasible"]
     RULE = ("(a) correspondence: positive-duration instances (flexible, recirculation, irregular), dispatcher with the "
             "dominated-operations filter installed, filter applied to the raw ready list in every state of a random "
             "history and available_operations() queried, compared with the Lean model whose filter the theorem is about "
